@@ -222,6 +222,7 @@ def cycle(m, exp, attr, focus):
             o.load(src)
             return o.dumps()
         fails += core.file_cycle(m, text, "manifest", attr + ".json", reload=reload)
+        fails += core.dict_cycle(m, text, "manifest")
     return fails
 
 
